@@ -1,4 +1,4 @@
-SOURCE_COMMITS = ['2a82dd5', '23b3277', 'd11a4bc', '0ff938d', 'f5c3f96', '4d27d01']
+SOURCE_COMMITS = ['2a82dd5', '23b3277', 'd11a4bc', '0ff938d', 'f5c3f96', '4d27d01', '24cde5a', 'eabce87']
 NOTES = ('Exit codes of ./check: 0 all obligations discharged; 1 violation (VIOLATION line); '
          '2 undecided (solver unknown / extraction failure / contract binding lost); 3 checker crash. '
          'See DESIGN.md.')
@@ -102,4 +102,13 @@ CLAIMED = {
         'optimizer(grad(params, batch, split(rng)[1]), ...) with rng <- split(rng)[0] and delta = server - client params.',
    note='Trusted: for_each_client contract (C02, backend independent), optimizers/grad pure (uninterpreted), distinct client ids, '
         'R arithmetic, order independence = commutativity of +. Native driver compares whole multi-round runs with a reference.'),
+ 'C10': dict(
+   text='Frame/ownership proof (OWN checker over the real ASTs) for every round function of the 7 algorithms and 4 compression '
+        'aggregators: each of the mutation sites (subscript/attribute stores, in-place operators, mutating methods, next()) is an '
+        'obligation "the mutated object was created in this call"; no nonlocal/global rebinding; no global RNG/clock/entropy; '
+        'server states are frozen pytree dataclasses; every aggregator stores a key on the split[0] spine of its state key and '
+        'seeds its per-client keys from a split[1] branch above it (symbolic execution of the real apply bodies).',
+   note='Trusted: library calls are pure and return fresh objects except listed aliasing accessors; jax arrays immutable; '
+        'value-level determinism for FedAvg/FedProx is apply.post/apply.state of C01/C12, the other algorithms rely on OWN + purity; '
+        'seeded client hparams needed for determinism (seed=None draws OS entropy).'),
 }
